@@ -232,6 +232,44 @@ func AnalyseWith(x interface{}, flags bool) Row {
 			}
 		}
 	}()
+	// (c) equal VALUES stored in different slots are still different slots: with one and the same value in every slot the view must expose
+	// exactly the slots it exposes when the values differ (a view built by comparing operand values drops or merges uses)
+	func() {
+		defer func() {
+			if e := recover(); e != nil {
+				row.Live = false
+			}
+		}()
+		inst4 := reflect.New(t)
+		var slots4 []slot
+		n4 := 0
+		fill(inst4.Elem(), "", &slots4, &n4)
+		if flags {
+			setFlags(inst4.Elem())
+		}
+		shared := reflect.ValueOf(ir.NewBlock("same"))
+		by4 := map[uintptr]string{}
+		for _, s4 := range slots4 {
+			s4.v.Set(shared)
+			by4[s4.addr] = s4.path
+		}
+		var got []string
+		for _, p := range inst4.Interface().(operander).Operands() {
+			if path, ok := by4[reflect.ValueOf(p).Pointer()]; ok {
+				got = append(got, path)
+			} else {
+				got = append(got, "?")
+			}
+		}
+		if strings.Join(got, ",") != strings.Join(row.Operands, ",") {
+			row.Live = false
+		}
+		if sc, ok := inst4.Interface().(succer); ok && len(row.Succs) > 0 && row.Succs[0] != "panic" && row.Succs[0] != "-" {
+			if len(sc.Succs()) != len(row.Succs) {
+				row.SuccLive = false
+			}
+		}
+	}()
 	// one slot at a time, with the successor list already computed once (a cached list must not survive ANY single retargeting)
 	if _, ok := inst.Interface().(succer); ok && len(row.Succs) > 0 && row.Succs[0] != "panic" {
 		for k := range row.Succs {
